@@ -409,6 +409,17 @@ func genC16(seed uint64, run int, tier string) *RunSpec {
 				} else {
 					op.Expect.Markers[m] = 1 // no layout applied, or a slot the layout does not place: the page's own emission only
 				}
+				// That the page render prints the content of its own <template #name> elements in place is what vuego
+				// does today, not something the statement asks for: an engine that only hands them to the layout emits
+				// each one time less. What the statement does ask for is that the two distinct elements are treated
+				// alike where they are placed alike.
+				if op.Expect.OneLess == nil {
+					op.Expect.OneLess = map[string]bool{}
+				}
+				op.Expect.OneLess[m] = true
+			}
+			if !(directSlots && isFile) {
+				op.Expect.Same = append(op.Expect.Same, []string{slotMarkers[0], slotMarkers[1]})
 			}
 		}
 		spec.Ops = append(spec.Ops, op)
@@ -508,7 +519,7 @@ func execC16(spec *RunSpec) *Result {
 				place = c16Placement(spec, m)
 			}
 			res.Cover = append(res.Cover, fmt.Sprintf("%s/%s/want%d", entryClass(op.Entry), place, want))
-			if got != want {
+			if got != want && !(op.Expect.OneLess[m] && got == want-1) {
 				clock := "ticking"
 				if spec.Kernel.Clock.TickNs == 0 {
 					clock = "frozen"
@@ -524,6 +535,15 @@ func execC16(spec *RunSpec) *Result {
 				res.violate("C16", "marker-count", fmt.Sprintf("v-once element %s: %s, entry %s", kind, place, entryClass(op.Entry)),
 					"op %d (%s %s, items=%d flag=%v, clock %s): marker %s (%s) occurs %d times, the statement requires %d\n  output: %s",
 					i, op.Entry, op.File, op.Data.Items, op.Data.Flag, clock, m, place, got, want, clip(out, 700))
+			}
+		}
+		for _, grp := range op.Expect.Same {
+			for _, m := range grp[1:] {
+				if a, b := countMarker(out, grp[0]), countMarker(out, m); a != b {
+					res.violate("C16", "marker-count", fmt.Sprintf("v-once element suppressed: %s, entry %s", op.Expect.Kinds[m], entryClass(op.Entry)),
+						"op %d (%s %s): markers %s and %s are placed alike but occur %d and %d times: one distinct v-once element is treated differently from the other\n  output: %s",
+						i, op.Entry, op.File, grp[0], m, a, b, clip(out, 700))
+				}
 			}
 		}
 	}
